@@ -7,6 +7,20 @@ Oracle: the PHY-side ghosts of lib/ulpi.py (what the PHY *told* the link: receiv
 bytes), compared with the UTMI-side outputs.  Nothing is copied from the translator; its one register stage of
 latency is allowed for (UTMI outputs are compared with what the PHY sent in the previous cycle; flags may lag one
 more cycle).
+
+FINDINGS (genuine defects of the anchored code found by this check on tree 73f89ad; both fixed in /repo by
+942f2dd "keep decoding RxCmds while a ULPI register write is pending" and 4f33358 "derive UTMI RxActive from the RxCmd
+on the bus, not from the decoder's edge strobes"; the check is green on the fixed tree):
+  1. RxCmds were ignored while the register window was busy with a *write* (register_operation_in_progress was wired
+     to register_window.busy, which also covers writes and DIR-aborted/retrying writes): an RxCmd colliding with e.g.
+     the start-up Function Control write left line_state/VBUS flags/RxActive stale and lost the packet it announced.
+     Trace: FS settings, step 1 DIR rises with NXT, step 2 RxCmd 0x03 -> line_state stays 0.
+  2. The decoder strobed rx_start/rx_stop relative to the RxActive bit of the *previous RxCmd*, not to the
+     translator's rx_active (which DIR falling clears): after a packet ended by DIR falling, the next packet announced
+     by RxCmd(RxActive=1) with DIR already high was dropped completely; a DIR+NXT start followed by RxCmd(RxActive=0)
+     left rx_active stuck high until DIR fell.
+  3. The RxCmd path took two register stages to rx_active, so a data byte directly following the announcing RxCmd was
+     dropped (fixed as a side effect of 2: rx_active is now taken from the RxCmd on the bus).
 """
 from amaranth import *
 from ..harness import Harness
